@@ -311,7 +311,12 @@ func injectOne(t *rapid.T, e Entry, args []spec.V, o InjectOpts) ([]spec.V, stri
 		for i := range args {
 			if args[i].St == spec.Known && args[i].T.K == spec.KNumber {
 				if extremes {
-					args[i] = spec.KnownNum(rapid.SampledFrom([]spec.Num{{Route: "+inf"}, {Route: "-inf"}, spec.NInt(0), spec.NInt(1), spec.NInt(-1)}).Draw(t, "extreme"))
+					// infinities, zero and one, and the numbers float64 arithmetic
+					// confuses with them: finite and positive but rounding to 0 or
+					// to an infinity, different from 1 but rounding to 1
+					args[i] = spec.KnownNum(rapid.SampledFrom([]spec.Num{{Route: "+inf"}, {Route: "-inf"}, spec.NInt(0), spec.NInt(1), spec.NInt(-1),
+						spec.NParse("1e-400"), spec.NParse("1e400"), spec.NParse("-1e400"), spec.NFloat(5e-324), {Route: "negzero"},
+						spec.NParse("1.00000000000000000000000001"), spec.NParse("0.99999999999999999999999999")}).Draw(t, "extreme"))
 				} else {
 					args[i] = spec.KnownNum(HostileNum(t, e.IsCount(i)))
 				}
